@@ -1,17 +1,32 @@
+pub mod c01;
+pub mod c09;
+pub mod c10;
 pub mod c12;
+pub mod c13;
+pub mod c14;
 
 use crate::report::CaseOut;
 
 pub fn plan(prop: &str, tier: &str) -> Option<u64> {
     Some(match prop {
+        "C01" => c01::plan(tier),
+        "C09" => c09::plan(tier),
+        "C10" => c10::plan(tier),
         "C12" => c12::plan(tier),
+        "C13" => c13::plan(tier),
+        "C14" => c14::plan(tier),
         _ => return None,
     })
 }
 
 pub fn run_case(prop: &str, tier: &str, seed: u64, idx: u64) -> CaseOut {
     match prop {
+        "C01" => c01::run_case(tier, seed, idx),
+        "C09" => c09::run_case(tier, seed, idx),
+        "C10" => c10::run_case(tier, seed, idx),
         "C12" => c12::run_case(tier, seed, idx),
+        "C13" => c13::run_case(tier, seed, idx),
+        "C14" => c14::run_case(tier, seed, idx),
         _ => panic!("unknown property {prop}"),
     }
 }
